@@ -9,6 +9,22 @@ CHECKS = {
    text="Generated-input search with a three-part oracle per input (round-trip, tail-independence metamorphic relation, differential against an independently written Clause-13 codec), plus exhaustive sweeps of every octet value / every flagField value (thorough: every 16-bit window) of each message type. Exploration, not proof: absence is not established, but every 8-bit field value of every type is enumerated.",
    note="Trusted: harness/src/refcodec.rs (self-tested against the repository's golden vectors at start-up); rejection by statime is never a violation.",
    technique="property-based testing: choice-sequence generator + shrinker, round-trip/metamorphic/differential oracle, exhaustive small-field enumeration; libFuzzer target `codec` in thorough"),
+ "C16": dict(level="exploration", design="DESIGN.md §4 C16",
+   text="Exact-arithmetic oracle (raw 2^-32 ns bit patterns in i128) over exhaustively enumerated boundary lattices (second/nanosecond carries, sign changes, extremes, every log interval) plus millions of sampled operand tuples; the time->wire->time clause is observed end-to-end in Follow_Up frames of a real master port decoded by the reference codec.",
+   note="Out-of-domain operand pairs (negative or >= 2^49 s results) are skipped; TimeInterval values are created via serde because the type is crate-private.",
+   technique="property-based testing: exhaustive boundary lattices + sampled operands against an exact integer reference"),
+ "C18": dict(level="exploration", design="DESIGN.md §4 C18",
+   text="Model-based testing: generated sequences (<=50 ops) of advance/set_frequency/step_clock/now/time_from_underlying on OverlayClock (also through SharedClock) compared after every op with an exact rational piecewise-affine reference, tolerance 1 ns + 2^-44 x elapsed.",
+   note="Underlying clock is harness-controlled; timestamps older than the last adjustment are not converted.",
+   technique="stateful property-based testing against an exact reference model, with shrinking"),
+ "C10": dict(level="exploration", design="DESIGN.md §4 C10",
+   text="Stateful generated histories on a real master port (E2E and P2P) with transmit/receive times over the whole 80-bit range and arbitrary request headers; every emitted frame is decoded by the independent reference codec and compared with exact integer expectations; two 70 000-emission runs per message type cross the sequence wrap; global monitors assert <= 1 SendEvent per action set, size <= 1024 and decodability by the library's own parser.",
+   note="Request corrections |c| >= 2^62 belong to C03. minorVersionPTP of Delay_Resp (echoed from the request) is not asserted.",
+   technique="stateful property-based testing with exact arithmetic oracle on decoded frames"),
+ "C09": dict(level="exploration", design="DESIGN.md §4 C09",
+   text="Schedule exploration over message deliveries of a port made slave by the protocol: exhaustive enumeration of all schedules up to length 6 (thorough 7) over a 7-symbol alphabet plus sampled schedules with duplication, omission, reordering, late transmit timestamps, non-parent traffic, parent switches and delay-id wrap-around; every Measurement handed to a recording filter must equal bit-for-bit the IEEE formula of one exchange with matching sequence id from the current parent (exact integer oracle).",
+   note="Double transmit timestamps are unrepresentable through the public API. A vacuity guard (clean in-order exchange must yield two measurements) exits 2, not 1.",
+   technique="schedule enumeration + sampled schedules with an exact single-exchange oracle"),
 }
 NA_REASON = "check not built yet in this round (design in DESIGN.md §4); will be claimed once its check exists"
 
